@@ -80,7 +80,7 @@ fn c12_hex_literal() {
 /// a fully symbolic 39-digit parse does not finish): an all-digit literal is an integer with its exact value
 #[kani::proof]
 #[kani::unwind(44)]
-#[kani::stub(<f64 as std::str::FromStr>::from_str, any_f64_parse)]
+#[kani::stub(<f64 as std::str::FromStr>::from_str, any_f64_value)]
 #[kani::stub(str::contains, no_separator)]
 fn c14_decimal_literal() {
     // i128::MAX = 170141183460469231731687303715884105727
